@@ -7,6 +7,7 @@ use crate::core::World;
 use crate::worlds::agent::AgentWorld;
 use crate::worlds::dlrt::DlrtWorld;
 use crate::worlds::dltask::DlTaskWorld;
+use crate::worlds::hosted::HostedWorld;
 use crate::worlds::vote::VoteWorld;
 use crate::worlds::store::StoreWorld;
 use crate::worlds::codec::CodecWorld;
@@ -19,7 +20,7 @@ fn agent(focus: &'static str, name: &'static str) -> Arc<dyn World> {
 }
 
 pub fn world_names() -> Vec<&'static str> {
-    vec!["agent-c01", "agent-c02", "agent-c03", "agent-c04", "agent-c05", "agent-c14", "agent-c04f", "agent-c20", "agent-mix", "dlrt-value", "dlrt-map", "dltask-value", "dltask-map", "vote", "store-mem", "store-rocks", "codec", "chan", "recon", "handlers"]
+    vec!["agent-c01", "agent-c02", "agent-c03", "agent-c04", "agent-c05", "agent-c14", "agent-c04f", "agent-c20", "agent-mix", "dlrt-value", "dlrt-map", "dltask-value", "dltask-map", "hosted-value", "hosted-map", "vote", "store-mem", "store-rocks", "codec", "chan", "recon", "handlers"]
 }
 
 pub fn world_by_name(name: &str) -> Option<Arc<dyn World>> {
@@ -37,6 +38,8 @@ pub fn world_by_name(name: &str) -> Option<Arc<dyn World>> {
         "dlrt-map" => Arc::new(DlrtWorld { map: true }),
         "dltask-value" => Arc::new(DlTaskWorld { map: false }),
         "dltask-map" => Arc::new(DlTaskWorld { map: true }),
+        "hosted-value" => Arc::new(HostedWorld { map: false }),
+        "hosted-map" => Arc::new(HostedWorld { map: true }),
         "vote" => Arc::new(VoteWorld),
         "codec" => Arc::new(CodecWorld),
         "chan" => Arc::new(ChanWorld),
@@ -107,8 +110,8 @@ pub fn spec_for(property: &str) -> Option<CheckSpec> {
         "C07" => CheckSpec { property: "C07", level: "exploration", parts: vec![part("dlrt-value", 3000, 300_000), part("dlrt-map", 3000, 300_000)], assumptions: vec![
             "the downlink runtime is polled as one task; the remote lane and the consumers are scripted harness code speaking the product's codecs over the product's byte channels".into(),
             "workloads use one writer per map key and clears only in single-writer runs so that 'as if all were sent' is unambiguous".into()] },
-        "C08" => CheckSpec { property: "C08", level: "exploration", parts: vec![part("dltask-value", 4000, 400_000), part("dltask-map", 4000, 400_000)], assumptions: vec![
-            "only the stand-alone client downlinks are driven; the agent-hosted downlinks and the client/hosted equivalence clause are not covered yet".into(),
+        "C08" => CheckSpec { property: "C08", level: "exploration", parts: vec![part("dltask-value", 4000, 400_000), part("dltask-map", 4000, 400_000), part("hosted-value", 3000, 300_000), part("hosted-map", 4000, 400_000)], assumptions: vec![
+            "the stand-alone client downlinks (dltask-*) and the agent-hosted downlinks inside a real agent + agent runtime (hosted-*) are driven by the same script generator; every legal hosted scenario is also executed on the client implementation and the two callback sequences are compared (normalisations N1-N5 in worlds/hosted/mod.rs)".into(),
             "the reference fold is the documented semantics: state = fold of notifications since linked; callbacks only when synced or events_when_not_synced".into()] },
         "C17" => CheckSpec {
             property: "C17",
